@@ -32,6 +32,11 @@ STRATA = {
     "large": (300, 6000),
     "declines": (300, 4000),
 }
+# functions that must leave their arguments untouched (vf.core.PurityMonitor; '!' = the object itself is watched too)
+PURE = [
+    "biotite.sequence.align.pairwise:align_optimal",
+    "biotite.sequence.align.alignment:score",
+]
 REQUIRED_ORACLES = [
     "score_is_optimum", "trace_valid", "rescored_equals_reported", "score_fn_equals_reported",
     "results_distinct", "max_number_respected", "returns_alignment", "invalid_argument_rejected",
